@@ -677,10 +677,69 @@ pub fn make_c04_push_dx(new_scheme: &'static str) -> ScenarioFn {
     })
 }
 
+/// DX: two tasks write padded packets whose payload exceeds the line's record sizes (a plain remainder follows the
+/// shaped records) on a narrow transport (writes go Pending while the writer is held).
+pub fn make_c04_two_writers(scheme: &'static str) -> ScenarioFn {
+    scenario(move || async move {
+        let mut out = Outcome::default();
+        let link = peer_link(PipeCfg::new("in"), PipeCfg::new("out").capacity(16));
+        let wire = link.peer.out.clone();
+        let sess = Arc::new(Session::new_client(link.sess_r, link.sess_w, padding(scheme), None));
+        tokio::spawn(link.peer.sink());
+        let mut hs = vec![];
+        for t in 0..2u8 {
+            let s = sess.clone();
+            hs.push(tokio::spawn(async move {
+                hpoint("h.c04.two").await;
+                let mut oks = vec![];
+                for k in 0..2u8 {
+                    oks.push(matches!(within(s.write_data_frame(t as u32 + 1, Bytes::from(vec![0x40 + 16 * t + k; 60 + 25 * t as usize]))).await, Some(Ok(()))));
+                }
+                oks
+            }));
+        }
+        let mut all_ok = true;
+        for h in hs {
+            all_ok &= h.await.map(|v| v.iter().all(|x| *x)).unwrap_or(false);
+        }
+        crate::ctl::settle().await;
+        tokio::time::sleep(Duration::from_millis(50)).await;
+        let bytes = wire.written();
+        let (frames, left) = parse_all(&bytes);
+        let real: Vec<RFrame> = frames.iter().filter(|f| f.cmd != WASTE).cloned().collect();
+        out.obs = format!("ok={all_ok} wire=[{}] left={left}", fmt_frames(&real));
+        if !all_ok {
+            out.viol("C04:sender-failed", "a write on a healthy (narrow) transport failed or blocked".to_string());
+        }
+        if left != 0 || frames.iter().any(|f| f.cmd > SERVER_SETTINGS) {
+            out.viol("C04:wire-not-whole-frames", format!("two concurrent writers on a narrow transport: {left} trailing bytes / unknown commands; frames: {}", fmt_frames(&frames)));
+            return out;
+        }
+        for t in 0..2u8 {
+            let want: Vec<RFrame> = (0..2u8).map(|k| RFrame::new(PSH, t as u32 + 1, &vec![0x40 + 16 * t + k; 60 + 25 * t as usize])).collect();
+            let got: Vec<RFrame> = real.iter().filter(|f| f.id == t as u32 + 1).cloned().collect();
+            if got != want {
+                out.viol(if got.len() < want.len() { "C04:payload-dropped-or-truncated" } else { "C04:payload-altered" }, format!("writer {t}: after deleting padding frames the wire has [{}] for its stream, submitted [{}]", fmt_frames(&got), fmt_frames(&want)));
+            }
+        }
+        if frames.iter().any(|f| f.cmd == WASTE && f.data.iter().any(|b| *b != 0)) {
+            out.viol("C04:payload-altered", "a padding frame carries non-zero bytes (payload spliced into padding)".to_string());
+        }
+        out
+    })
+}
+
 pub fn c04_items(tier: Tier) -> Vec<DxItem> {
     let mut v = vec![];
     for (name, new) in [("one entry per line", "stop=9\n1=100-100\n2=100-100\n3=100-100\n4=100-100\n5=100-100\n6=100-100\n7=100-100\n8=100-100"), ("no lines", "stop=9"), ("stop=1", "stop=1\n0=5-5"), ("longer lines", "stop=9\n1=7-7,7-7,7-7,7-7,7-7,c,9-9\n2=7-7,7-7,7-7,7-7,7-7,c,9-9\n3=7-7,7-7,7-7,7-7,7-7,c,9-9")] {
         let mut it = DxItem::new(json!({"part": "push during a padded packet", "pushed": name}), make_c04_push_dx(new), if tier.is_thorough() { 3 } else { 2 });
+        it.exec.draw = DrawPolicy::Min;
+        it.exec.long_yield = 3;
+        it.exec.quiesce = true;
+        v.push(it);
+    }
+    for (name, scheme) in [("records smaller than the payload", "stop=9\n1=7-7,8-8\n2=7-7,8-8\n3=7-7,8-8\n4=7-7,8-8\n5=30-30\n6=30-30"), ("check marks and padding-only records", OLD4)] {
+        let mut it = DxItem::new(json!({"part": "two writers on a narrow transport", "scheme": name}), make_c04_two_writers(scheme), if tier.is_thorough() { 2 } else { 1 });
         it.exec.draw = DrawPolicy::Min;
         it.exec.long_yield = 3;
         it.exec.quiesce = true;
